@@ -195,6 +195,7 @@ fn c13_doc_eval(bytes: &[u8], uni: &'static str, acc: &mut Acc) {
         let routes: Vec<(&'static str, Result<String, String>)> = vec![
             ("toml::from_str::<Table>", toml::from_str::<toml::Table>(text).map(|v| crate::real::canon_toml_table(&v, true)).map_err(|e| e.message().to_string())),
             ("str::parse::<Table>", text.parse::<toml::Table>().map(|v| crate::real::canon_toml_table(&v, true)).map_err(|e| e.message().to_string())),
+            ("str::parse::<Value>", text.parse::<toml::Value>().map(|v| crate::real::canon_toml_value(&v, true)).map_err(|e| e.message().to_string())),
             ("toml_edit::de::from_str::<Value>", toml_edit::de::from_str::<toml::Value>(text).map(|v| crate::real::canon_toml_value(&v, true)).map_err(|e| e.message().to_string())),
             ("toml_edit::de::from_slice::<Table>", toml_edit::de::from_slice::<toml::Table>(bytes).map(|v| crate::real::canon_toml_table(&v, true)).map_err(|e| e.message().to_string())),
             ("from_document(DocumentMut)", text.parse::<toml_edit::DocumentMut>().map_err(|e| e.message().to_string()).and_then(|d| toml_edit::de::from_document::<toml::Value>(d).map(|v| crate::real::canon_toml_value(&v, true)).map_err(|e| e.message().to_string()))),
